@@ -839,6 +839,10 @@ let s8_case (c : case) : unit =
           match verdict, rest with
           | "ok", [bytes; stk; memo; left] ->
               Hashtbl.reset fmt_override;
+              (* C04 on what the implementation wrote: one whole opcode of the standard table, argument in its domain *)
+              (match lex_one (bytes_of_hex bytes) with
+               | Some (_, []) -> ()
+               | _ -> Printf.printf "PROP %s C04 fail the bytes %s emitted for %s do not decode as one well-formed opcode\n" c.id bytes op);
               (match cmp bytes (stk ^ " " ^ memo) left with
                | None -> ()
                | Some d when o = FLOAT ->
@@ -848,7 +852,9 @@ let s8_case (c : case) : unit =
                    (match float_of_string_opt txt with
                     | Some f when not (Float.is_nan f) -> Hashtbl.replace fmt_override (Int64.bits_of_float f) txt
                     | _ -> ());
-                   (match cmp bytes (stk ^ " " ^ memo) left with None -> () | Some _ -> diff "emit" d);
+                   (match cmp bytes (stk ^ " " ^ memo) left with
+                    | None -> Printf.printf "NOTE %s float-format-fallback %s\n" c.id txt
+                    | Some _ -> diff "emit" d);
                    Hashtbl.reset fmt_override
                | Some d -> diff "emit" d)
           | ("panic" | "err"), msg ->
